@@ -154,13 +154,39 @@ pub fn run_isolated(prop: &str, src: &TapeSrc, cfg: &RunCfg, trace: bool) -> Chi
                     libc::dup2(devnull, 1);
                 }
             }
-            let rec = run_here(prop, src, cfg, trace);
-            let bytes = serde_json::to_vec(&rec).unwrap_or_default();
+            // a panic that escapes a run is either the code under test panicking outside any task (e.g. while the
+            // application is built) — a violation — or a defect of this harness — a harness error (exit 2), never a verdict
+            let res = std::panic::catch_unwind(std::panic::AssertUnwindSafe(|| run_here(prop, src, cfg, trace)));
             let mut f = std::fs::File::from_raw_fd(fds[1]);
-            let _ = f.write_all(&bytes);
+            let code = match res {
+                Ok(rec) => {
+                    let _ = f.write_all(&serde_json::to_vec(&rec).unwrap_or_default());
+                    0
+                }
+                Err(_) => {
+                    let info = simcore::LAST_PANIC.with(|p| p.borrow_mut().take());
+                    let (file, line, message) = info.map(|i| (i.file, i.line, i.message)).unwrap_or_default();
+                    let own = file.starts_with("harness/") || file.starts_with("simcore/") || file.starts_with("facade/") || file.contains("/verif/sim/") || file.is_empty();
+                    if own {
+                        let _ = f.write_all(format!("harness panic at {file}:{line}: {message}").as_bytes());
+                        3
+                    } else {
+                        let run = match src {
+                            TapeSrc::Seed { run, .. } => *run,
+                            _ => 0,
+                        };
+                        let mut rec = synth_record(prop, run, "no-panic", crate::rt::panic_site(&file, &message));
+                        if let Verdict::Violation { message: m, .. } = &mut rec.outcome.verdict {
+                            *m = format!("the code under test panicked outside any task at {file}:{line}: {message}");
+                        }
+                        let _ = f.write_all(&serde_json::to_vec(&rec).unwrap_or_default());
+                        0
+                    }
+                }
+            };
             let _ = f.flush();
             drop(f);
-            libc::_exit(0);
+            libc::_exit(code);
         }
         // ---- parent
         libc::close(fds[1]);
@@ -176,6 +202,9 @@ pub fn run_isolated(prop: &str, src: &TapeSrc, cfg: &RunCfg, trace: bool) -> Chi
                 return ChildResult::Stuck;
             }
             return ChildResult::Crashed(sig);
+        }
+        if libc::WIFEXITED(status) && libc::WEXITSTATUS(status) == 3 {
+            return ChildResult::Garbled(String::from_utf8_lossy(&buf).to_string());
         }
         if libc::WIFEXITED(status) && libc::WEXITSTATUS(status) != 0 {
             return ChildResult::Crashed(-libc::WEXITSTATUS(status));
@@ -625,7 +654,13 @@ pub fn replay_file(path: &str, quiet: bool) -> i32 {
             println!("VIOLATION property={} replay={}", rf.property, path);
             1
         }
-        _ => 0,
+        Some(other) => {
+            // not the recorded violation, but a violation of the same property all the same
+            println!("note: the recorded signature did not reproduce; the replay ends in {other}");
+            println!("VIOLATION property={} replay={}", rf.property, path);
+            1
+        }
+        None => 0,
     }
 }
 
@@ -687,21 +722,70 @@ pub fn check(opts: &CheckOpts) -> i32 {
         };
         let sig = rec.outcome.signature(prop);
         let reproduces = sig.as_ref().map(|s| f.signatures.iter().any(|p| sig_matches(p, s))).unwrap_or(false);
+        // a probe that ends in ANOTHER violation is a violation too, unless an open finding lists it
+        let listed_open = sig.as_ref().map(|s| findings.iter().any(|g| g.status == "known" && g.signatures.iter().any(|p| sig_matches(p, s)))).unwrap_or(false);
         probe_results.push(json!({"finding": f.id, "status": f.status, "reproduces": reproduces, "observed": sig}));
         match (f.status.as_str(), reproduces) {
             ("known", true) => known_lines.push(format!("KNOWN-FINDING: property={} {} {}", prop, f.id, f.what)),
-            ("known", false) => println!("note: known finding {} no longer reproduces from its replay file (observed: {:?})", f.id, sig),
             ("fixed", true) => {
                 println!("fixed finding {} is back: {}", f.id, f.what);
                 println!("VIOLATION property={} replay={}", prop, path);
                 violations_reported += 1;
                 exit = 1;
             }
+            (st, false) => {
+                if st == "known" {
+                    println!("note: known finding {} no longer reproduces from its replay file (observed: {:?})", f.id, sig);
+                }
+                if let (Some(s), false) = (&sig, listed_open) {
+                    println!("violation: {s}  (directed probe {} ends in a violation its finding does not list)", f.id);
+                    println!("  {}", rec.outcome.detail().chars().take(1200).collect::<String>());
+                    println!("VIOLATION property={} replay={}", prop, path);
+                    violations_reported += 1;
+                    exit = 1;
+                }
+            }
             _ => {}
         }
     }
     for l in &known_lines {
         println!("{l}");
+    }
+
+    // 1b. sensitivity corpus: minimised scenarios + schedules that told a property-breaking change from the tree
+    // (collected by tools/collect_corpus.sh); every one is re-executed on every run and must hold
+    let mut corpus_results = Vec::new();
+    {
+        let dir = format!("{VERIF_DIR}/corpus/{prop}");
+        let mut files: Vec<String> = std::fs::read_dir(&dir).map(|rd| rd.filter_map(|e| e.ok()).map(|e| e.path().to_string_lossy().to_string()).filter(|p| p.ends_with(".json")).collect()).unwrap_or_default();
+        files.sort();
+        for path in files {
+            let rf: ReplayFile = match std::fs::read_to_string(&path).map_err(|e| e.to_string()).and_then(|s| serde_json::from_str(&s).map_err(|e| e.to_string())) {
+                Ok(r) => r,
+                Err(e) => {
+                    eprintln!("harness error: cannot read corpus file {path}: {e}");
+                    return 2;
+                }
+            };
+            let cfg: RunCfg = (&rf.cfg).into();
+            let rec = match run_isolated_record(prop, &rf.direct_src(), &cfg, false) {
+                Ok(r) => r,
+                Err(e) => {
+                    eprintln!("harness error: corpus child failed: {e}");
+                    return 2;
+                }
+            };
+            let sig = rec.outcome.signature(prop);
+            let listed_open = sig.as_ref().map(|s| findings.iter().any(|g| g.status == "known" && g.signatures.iter().any(|p| sig_matches(p, s)))).unwrap_or(false);
+            corpus_results.push(json!({"file": path.rsplit('/').next().unwrap_or(""), "observed": sig}));
+            if let (Some(s), false) = (&sig, listed_open) {
+                println!("violation: {s}  (corpus scenario)");
+                println!("  {}", rec.outcome.detail().chars().take(1200).collect::<String>());
+                println!("VIOLATION property={} replay={}", prop, path);
+                violations_reported += 1;
+                exit = 1;
+            }
+        }
     }
 
     // 2. main + hazard pass
@@ -809,6 +893,7 @@ pub fn check(opts: &CheckOpts) -> i32 {
             "hazard_pass_runs": agg.hazard_runs,
             "hazard_redraws": agg.redraws,
             "directed_probes": probe_results,
+            "corpus_probes": corpus_results,
             "reported": reported,
             "workers": opts.workers,
             "components": {
